@@ -147,6 +147,8 @@ package interpreter
 //@ typeint Fix128Value: tdiv(wrap(self.Hi * pow2(64) + self.Lo, 128, true), 1000000000000000000000000)
 //@ typenum UFix128Value: self.Hi * pow2(64) + self.Lo
 //@ typeint UFix128Value: ediv(self.Hi * pow2(64) + self.Lo, 1000000000000000000000000)
+// the integer part of a value of each sized kind lies within the kind's range (type invariant; keeps counterexamples realisable)
+//@ spec mvalty(a) = (kind(a) == Int8Value ==> inrange(mval(a), -pow2(7), pow2(7)-1)) && (kind(a) == UInt8Value ==> inrange(mval(a), 0, pow2(8)-1)) && (kind(a) == Word8Value ==> inrange(mval(a), 0, pow2(8)-1)) && (kind(a) == Int16Value ==> inrange(mval(a), -pow2(15), pow2(15)-1)) && (kind(a) == UInt16Value ==> inrange(mval(a), 0, pow2(16)-1)) && (kind(a) == Word16Value ==> inrange(mval(a), 0, pow2(16)-1)) && (kind(a) == Int32Value ==> inrange(mval(a), -pow2(31), pow2(31)-1)) && (kind(a) == UInt32Value ==> inrange(mval(a), 0, pow2(32)-1)) && (kind(a) == Word32Value ==> inrange(mval(a), 0, pow2(32)-1)) && (kind(a) == Int64Value ==> inrange(mval(a), -pow2(63), pow2(63)-1)) && (kind(a) == UInt64Value ==> inrange(mval(a), 0, pow2(64)-1)) && (kind(a) == Word64Value ==> inrange(mval(a), 0, pow2(64)-1)) && (kind(a) == Int128Value ==> inrange(mval(a), -pow2(127), pow2(127)-1)) && (kind(a) == UInt128Value ==> inrange(mval(a), 0, pow2(128)-1)) && (kind(a) == Word128Value ==> inrange(mval(a), 0, pow2(128)-1)) && (kind(a) == Int256Value ==> inrange(mval(a), -pow2(255), pow2(255)-1)) && (kind(a) == UInt256Value ==> inrange(mval(a), 0, pow2(256)-1)) && (kind(a) == Word256Value ==> inrange(mval(a), 0, pow2(256)-1)) && (kind(a) == Fix64Value ==> inrange(mval(a), -92233720368, 92233720368)) && (kind(a) == UFix64Value ==> inrange(mval(a), 0, 184467440737)) && (kind(a) == Fix128Value ==> inrange(mval(a), -170141183460469, 170141183460469)) && (kind(a) == UFix128Value ==> inrange(mval(a), 0, 340282366920938)) && (kind(a) == UIntValue ==> mval(a) >= 0)
 //@ iface NumberValue.ToInt
 //@   option expand=true
 //@   requires valid(self)
